@@ -21,19 +21,21 @@ created per subscription inside defer/using factories).
 """
 from __future__ import annotations
 
+import datetime as _dt
 from typing import Any, Callable
 
 import reactivex as rx
 import reactivex.operators as ops
 from reactivex import abc
 from reactivex.disposable import Disposable
+from reactivex.scheduler import VirtualTimeScheduler
 from reactivex.subject import AsyncSubject, BehaviorSubject, ReplaySubject, Subject
 
 from .. import registry as R
 from ..common import show, strict
 from ..vlab import Lab, ProbeObserver, SrcErr, gen_timeline
 
-ACTION_BUDGET = 6000
+ACTION_BUDGET = 2500
 
 
 # ------------------------------------------------------------------------------------------ environment
@@ -82,6 +84,8 @@ def new_lab() -> Lab:
             lab.ts.stop()
     lab.budget = ACTION_BUDGET  # type: ignore[attr-defined]
     lab.action_hook = hook
+    # plain virtual-time run: TestScheduler.start() would add its create/subscribe/dispose actions at 100/200/1000
+    lab.ts.start = lambda: VirtualTimeScheduler.start(lab.ts)  # type: ignore[method-assign]
     return lab
 
 
@@ -107,9 +111,18 @@ def canon(v: Any) -> Any:
         if kind == "E":
             return ("notification", "E", canon(v.exception))
         return ("notification", kind)
-    if hasattr(v, "interval") and hasattr(v, "value") and type(v).__name__ == "TimeInterval":
-        return ("TimeInterval", canon(v.value), canon(v.interval))
-    return strict(v)
+    if isinstance(v, _dt.timedelta):
+        return ("timedelta", v.total_seconds())
+    if isinstance(v, _dt.datetime):
+        return ("datetime", v.isoformat())
+    if isinstance(v, (set, frozenset)):
+        return (type(v).__name__, tuple(sorted((canon(x) for x in v), key=repr)))
+    fields = getattr(type(v), "__dataclass_fields__", None)
+    if fields is not None:   # TimeInterval, Timestamp
+        return (type(v).__name__, tuple((f, canon(getattr(v, f))) for f in fields))
+    if v is None or isinstance(v, (bool, int, float, str, bytes)):
+        return strict(v)
+    return ("obj", type(v).__qualname__)   # per-subscription objects: identity is not comparable
 
 
 def tree_trace(obs: ProbeObserver, t0: float, before: float | None = None) -> list:
@@ -152,8 +165,11 @@ def count_children(obs: ProbeObserver) -> int:
 
 # ------------------------------------------------------------------------------------------ sources
 
-def S(term: Any = "auto", lo: int = 0, hi: int = 5, mindur: int = 0, domain: str | None = None) -> dict:
-    return {"term": term, "lo": lo, "hi": hi, "mindur": mindur, "domain": domain}
+def S(term: Any = "auto", lo: int = 0, hi: int = 5, mindur: int = 0, domain: str | None = None, minstart: int = 0) -> dict:
+    """term: 'C' | 'E' | 'CE' (either) | None (never ends) | 'auto'; lo/hi: number of elements; mindur: the terminal
+    notification is at offset >= mindur; minstart: the first notification is at offset >= minstart (loops that
+    re-subscribe such a source always advance virtual time)"""
+    return {"term": term, "lo": lo, "hi": hi, "mindur": mindur, "domain": domain, "minstart": minstart}
 
 
 ANY = S()
@@ -178,6 +194,9 @@ def gen_source(r: Any, spec: dict, domain: str) -> list:
         tl = [(5 * (i + 1), "N", i) for i in range(spec["lo"])] + [(m[0] + 5 * spec["lo"], m[1], m[2]) for m in tl if m[1] != "N"]
     if spec["mindur"] and tl and tl[-1][0] < spec["mindur"]:
         shift = spec["mindur"] - tl[-1][0]
+        tl = [(t + shift, k, v) for (t, k, v) in tl]
+    if spec["minstart"] and tl and tl[0][0] < spec["minstart"]:
+        shift = spec["minstart"] - tl[0][0]
         tl = [(t + shift, k, v) for (t, k, v) in tl]
     return tl
 
@@ -335,8 +354,8 @@ E("repeat_count", "repeat", "op", [S("C", mindur=1)], lambda r: {"n": r.randint(
 E("repeat_forever_take", "repeat", "op", [S("C", lo=1, mindur=1)], lambda r: {"k": r.randint(1, 7)},
   lambda env, P: rx.compose(ops.repeat(), ops.take(P["k"])))
 E("retry_then_repeat", "retry", "op", [S("CE", mindur=1)], lambda r: {"n": r.randint(1, 3), "m": r.randint(1, 3)},
-  lambda env, P: rx.compose(ops.retry(P["n"]), ops.catch(rx.empty()), ops.repeat(P["m"])), c44=False)
-E("retry_flaky_since", "retry", "create", [S("E", mindur=2), ANY], lambda r: {"lim": r.choice([3, 8, 15, 25]), "n": r.choice([None, 2, 4])},
+  lambda env, P: rx.compose(ops.retry(P["n"]), ops.catch(lambda ex, src: rx.empty()), ops.repeat(P["m"])))
+E("retry_flaky_since", "retry", "create", [S("E", mindur=2), S("C")], lambda r: {"lim": r.choice([3, 8, 15, 25]), "n": r.choice([None, 2, 4])},
   lambda env, P: rx.defer(lambda sch: env.src(0) if env.since() < P["lim"] else env.src(1)).pipe(ops.retry(P["n"])), since=True)
 E("repeat_until_since", "repeat", "op", [S("C", lo=1, mindur=2)], lambda r: {"lim": r.choice([3, 8, 15, 25])},
   lambda env, P: rx.compose(ops.repeat(), ops.take_while(lambda v: env.since() < P["lim"])), since=True)
@@ -434,7 +453,7 @@ def _using(env: Env, P: dict) -> Any:
 
 E("defer_while_do_state", "defer", "create", [S("C", mindur=0)], lambda r: {"k": r.randint(0, 3)}, _defer_while)
 E("defer_do_while_state", "defer", "create", [S("C", mindur=0)], lambda r: {"k": r.randint(0, 3)}, _defer_do_while)
-E("defer_retry_flaky_state", "defer", "create", [ERR, ANY], lambda r: {"k": r.randint(0, 3), "n": r.choice([None, 2, 3, 5])}, _defer_flaky)
+E("defer_retry_flaky_state", "defer", "create", [S("E", mindur=1), S("C")], lambda r: {"k": r.randint(0, 3), "n": r.choice([None, 2, 3, 5])}, _defer_flaky)
 E("defer_source", "defer", "create", [ANY, ANY], lambda r: {"i": r.randint(0, 1), "raise": r.random() < 0.15},
   lambda env, P: rx.defer(lambda sch: (_ for _ in ()).throw(ValueError("defer")) if P["raise"] else env.src(P["i"])))
 E("using", "using", "create", [ANY], lambda r: {"res": r.random() < 0.8, "raise": r.random() < 0.15}, _using)
@@ -500,8 +519,8 @@ E("sequence_equal_observable", "sequence_equal", "op", [S("CE", hi=3, domain="du
   lambda env, P: ops.sequence_equal(env.src(1)))
 E("buffer_boundaries", "buffer", "op", [ANY, ANY], none, lambda env, P: ops.buffer(env.src(1)))
 E("window_boundaries", "window", "op", [ANY, ANY], none, lambda env, P: ops.window(env.src(1)))
-E("buffer_when", "buffer_when", "op", [S(lo=1), S(lo=1, hi=2)], none, lambda env, P: ops.buffer_when(lambda: env.src(1)))
-E("window_when", "window_when", "op", [S(lo=1), S(lo=1, hi=2)], none, lambda env, P: ops.window_when(lambda: env.src(1)))
+E("buffer_when", "buffer_when", "op", [S("CE", lo=1), S(lo=1, hi=2, minstart=1)], none, lambda env, P: ops.buffer_when(lambda: env.src(1)))
+E("window_when", "window_when", "op", [S("CE", lo=1), S(lo=1, hi=2, minstart=1)], none, lambda env, P: ops.window_when(lambda: env.src(1)))
 E("buffer_toggle", "buffer_toggle", "op", [S(lo=1), S(lo=1), S(hi=2)], none,
   lambda env, P: ops.buffer_toggle(env.src(1), lambda v: env.src(2)))
 E("window_toggle", "window_toggle", "op", [S(lo=1), S(lo=1), S(hi=2)], none,
@@ -551,7 +570,7 @@ E("debounce", "debounce", "op", [S(lo=1)], tm, lambda env, P: ops.debounce(P["d"
 E("throttle_first", "throttle_first", "op", [S(lo=1)], tm, lambda env, P: ops.throttle_first(P["d"], scheduler=env.ts), stage=True)
 E("timeout", "timeout", "op", [ANY], tm_pos, lambda env, P: ops.timeout(P["d"], scheduler=env.ts), stage=True)
 E("timeout_other", "timeout", "op", [ANY, ANY], tm_pos, lambda env, P: ops.timeout(P["d"], env.src(1), scheduler=env.ts))
-E("sample_time", "sample", "op", [S(lo=1)], tm_pos, lambda env, P: ops.sample(P["d"], scheduler=env.ts), stage=True)
+E("sample_time", "sample", "op", [S("CE", lo=1)], tm_pos, lambda env, P: ops.sample(P["d"], scheduler=env.ts), stage=True)
 E("window_with_time", "window_with_time", "op", [S("CE", lo=1)], lambda r: {"d": r.choice([3, 5, 10, 12]), "shift": r.choice([None, None, 3, 5, 10, 15])},
   lambda env, P: ops.window_with_time(P["d"], P["shift"], scheduler=env.ts))
 E("buffer_with_time", "buffer_with_time", "op", [S("CE", lo=1)], lambda r: {"d": r.choice([3, 5, 10, 12]), "shift": r.choice([None, None, 3, 5, 10, 15])},
